@@ -61,7 +61,9 @@ D32 == INSTANCE RangeDec32      \* the overflow-safe decoder at the same (reduce
 
 AllTags == {"collision", "collision_end", "carry", "carry_into_run", "run_no_carry", "patch_buf",
             "patch_rem", "patch_val", "patch_err", "patch_first_deferred", "patch_deferred_fixed", "shrink_moves", "bust", "bust_no_range_data",
-            "bust_raw_truncated", "shared_last_byte"}
+            "bust_raw_truncated", "shared_last_byte",
+            "op_enc", "op_bin", "op_logp", "op_icdf", "op_uint", "op_bits", "op_patch", "op_shrink",
+            "decoder_error", "decoded_all"}
 
 (***************************************************************************)
 (* the overflow-safe decoder run next to the plain one                     *)
@@ -113,14 +115,16 @@ Analyse(opl, e, etr) ==
       run == DecRun(d0, opl, 1, 0, pb, <<>>)
       res == run.res
       e0 == EncInit(Len(e.buf))
-      \* the premise of Inverse/TellEqual; the known deviation of ec_enc_patch_initial_bits (first
-      \* symbol deferred in ext) is excluded here and reported from the real traces instead
-      premise == fin.err = 0 /\ wf /\ "patch_first_deferred" \notin fin.cov
+      premise == fin.err = 0 /\ wf
+      \* regression variant (PATCH_FIX = FALSE): the premise that held before the repair
+      premiseOld == premise /\ "patch_first_deferred" \notin fin.cov
       encFr == [i \in 1..Len(etr) |-> etr[i][2]]
       decFr == [i \in 1..Len(res) |-> res[i].t[2]]
       allT == {etr[i] : i \in 1..Len(etr)} \cup {res[i].t : i \in 1..Len(res)} \cup {Triple(e0), Triple(d0)}
       s0 == D32!Init(fin.buf, fin.storage)
   IN [ inverse   |-> premise => (run.complete /\ \A i \in 1..Len(res) : res[i].ok),
+       inverseOld |-> premiseOld => (run.complete /\ \A i \in 1..Len(res) : res[i].ok),
+       tellEqualOld |-> premiseOld => (Len(res) = Len(etr) /\ \A i \in 1..Len(res) : res[i].t = etr[i]),
        tellEqual |-> premise => (/\ Triple(d0) = Triple(e0)
                                  /\ Len(res) = Len(etr)
                                  /\ \A i \in 1..Len(res) : res[i].t = etr[i]),
@@ -139,7 +143,11 @@ Analyse(opl, e, etr) ==
        fracDef |-> TellFracDef(e) = TellFrac(e) /\ TellFracDef(d0) = TellFrac(d0),
        decValLtRng |-> run.d.val < run.d.rng,
        safeDec |-> SameState(d0, s0) /\ SafeRun(fin.buf, d0, s0, opl, res, 1),
-       err |-> fin.err, wf |-> wf, cov |-> fin.cov,
+       err |-> fin.err, wf |-> wf,
+       \* coverage: encoder corners, op kinds in the list (vacuity guard), decoder outcomes
+       cov |-> fin.cov \cup {"op_" \o opl[i].k : i \in 1..Len(opl)}
+               \cup (IF run.d.err # 0 THEN {"decoder_error"} ELSE {})
+               \cup (IF premise /\ run.complete /\ Len(opl) >= 2 THEN {"decoded_all"} ELSE {}),
        decErr |-> run.d.err,
        bytes |-> fin.offs + fin.endOffs ]
 
@@ -181,6 +189,8 @@ Next == DoEncode \/ DoEncodeBin \/ DoBitLogp \/ DoIcdf \/ DoUint \/ DoBits \/ Do
 Spec == Init /\ [][Next]_<<ops, enc, tr, chk>>
 
 Inverse        == chk.inverse
+InverseBeforeFix   == chk.inverseOld
+TellEqualBeforeFix == chk.tellEqualOld
 TellEqual      == chk.tellEqual
 TellStable     == chk.tellStable
 FracMonotone   == chk.fracMonotone
@@ -193,7 +203,7 @@ FracDefAgrees  == chk.fracDef
 DecValLtRng    == chk.decValLtRng
 SafeDecAgrees  == chk.safeDec
 \* a successful encoder run decodes without the decoder's own error flag
-NoDecErr       == (chk.err = 0 /\ chk.wf /\ "patch_first_deferred" \notin chk.cov) => chk.decErr = 0
+NoDecErr       == (chk.err = 0 /\ chk.wf) => chk.decErr = 0
 
 (***************************************************************************)
 (* coverage / behaviour generation: each worker prints up to EmitPerTag op  *)
